@@ -1,14 +1,11 @@
 #!/bin/bash
-# usage: seed_all.sh [ids...]  -- every seeded change under /verif/seeded applied to /repo in turn, its property's quick check run, change reverted.
+# usage: seed_all.sh [ids...]  -- every seeded change under /verif/seeded applied (in a scratch worktree) in turn, its property's quick check run.
 cd /verif
 OUT=/verif/seeded/RESULTS.txt
 ids=${@:-$(ls seeded | grep -E '^C[0-9]+-')}
 [ $# -eq 0 ] && : > $OUT
 for id in $ids; do
   prop=${id%%-*}
-  if ! git -C /repo apply /verif/seeded/$id/patch.diff 2>/dev/null; then echo "$id: PATCH DOES NOT APPLY" | tee -a $OUT; continue; fi
-  res=$(./check $prop 2>&1 | grep -v conda | grep -E "^VIOLATION|^KNOWN|quick:|INFRA|^  [a-zA-Z-]+:" | cut -c1-300 | head -4 | tr '\n' '|')
-  git -C /repo checkout -- .
+  res=$(harness/seed_run.sh /verif/seeded/$id/patch.diff $prop 2>&1 | head -4 | tr '\n' '|')
   echo "$id: $res" | tee -a $OUT
 done
-git -C /repo status --short | head -3
